@@ -260,6 +260,24 @@ func probeSortedMap(rd sstables.SSTableReaderI, sorted []kv, probes [][]byte, lo
 			}
 		}
 	}
+	// a reader may carry state between calls (offset caches, reused scratch entries): the point lookups must give the
+	// same answers after all those scans as they did before
+	for _, p := range probes {
+		*evals += 2
+		want := find(p)
+		c, err := rd.Contains(p)
+		if err != nil || c != (want != nil) {
+			add("", "after the scans: Contains(%s)=%v,%v want %v", keyStr(p), c, err, want != nil)
+		}
+		v, err := rd.Get(p)
+		if want == nil {
+			if !errors.Is(err, sstables.NotFound) {
+				add("", "after the scans: Get(%s)=%s,%v want NotFound", keyStr(p), recStr(v), err)
+			}
+		} else if err != nil || !recEq(v, want.V) {
+			add("", "after the scans: Get(%s)=%s,%v want %s", keyStr(p), recStr(v), err, recStr(want.V))
+		}
+	}
 	return bad
 }
 
